@@ -621,6 +621,9 @@ func c06CheckGeom(model gm.G, cx *h.Ctx) *h.Failure {
 			}
 		}
 	}
+	if msg := scribbleEncoders(g, "MarshalJSON"); msg != "" {
+		return h.Failf("geojson/result-shared", "%s (%s)", msg, model)
+	}
 	if !bytes.Equal(out, held) {
 		return h.Failf("geojson/result-overwritten", "the bytes returned by MarshalJSON changed after later MarshalJSON calls:\nwas %s\nnow %s", clip(string(held), 300), clip(string(out), 300))
 	}
